@@ -885,6 +885,9 @@ def _c08_wire_rules(an, V):
             if first and ep == 'client' and t != 'SETUP' and not an.plan.get('reconnects'):
                 V('wire_first_frame_not_setup', 'first frame the client wrote is %s' % t, ev['seq'], ep=ep, type=t, lease=lease)
             first = False
+            if t in ('PAYLOAD', 'REQUEST_CHANNEL') and f.get('complete') and f.get('follows'):
+                V('wire_complete_before_last_fragment', '%s on stream %d flagged COMPLETE and FOLLOWS: more payload follows the completion'
+                  % (t, sid), ev['seq'], ep=ep, type=t, lease=lease)
             if sid <= 0 or sid % 2 != parity or t == 'UNDECODABLE':
                 continue
             if t in REQ_TYPES:
@@ -1342,6 +1345,11 @@ def oracle_c11(an):
         # (4) silence after the close completed
         if observed:
             c = observed[0]
+            # the endpoint's own cleanup runs when the application's on_close() has returned
+            ret = next((e for e in an.by_kind['hnd'] + an.by_kind.get('post_hnd', []) if e['ep'] == ep
+                        and e['method'] == 'on_close_returned' and e['seq'] > c['seq']), None)
+            if ret is not None:
+                c = ret
             # frames handed to the transport, and frames the library itself originates (keepalives);
             # a frame queued by an application call made after the close is not "the endpoint sending"
             late = [e for e in an.by_kind['tx'] + [x for x in an.by_kind['enq'] if x['f']['type'] == 'KEEPALIVE']
@@ -1365,6 +1373,38 @@ def _emitted_all_flagged_role(an, iid, role, prod, seq):
         return False
     emits = [e for e in prod if e['cb'] == 'emit' and e['seq'] < seq]
     return len(emits) >= sc.get('count', 0) > 0
+
+
+def oracle_c01_close(an):
+    """Delivery across an orderly close: a fire-and-forget or metadata-push whose frame had been
+    handed to the transport completely (its sent-future was done) before the same endpoint closed the
+    connection is still delivered - an orderly close delivers everything written before it."""
+    out = []
+    V = lambda cls, msg, seq=None, **f: out.append(Violation('C01', 'C01.' + cls, msg, seq, **f))
+    closes = [e for e in an.by_kind.get('fault', []) if e['what'] == 'close']
+    if not closes:
+        return out
+    c = closes[0]
+    for iid, ia in an.ia.items():
+        if ia['kind'] not in ('fnf', 'push') or an.requester(iid) != c.get('who'):
+            continue
+        sent = next((e for e in an.futs.get((iid, 'requester'), []) if e['state'] == 'sent'), None)
+        if sent is None or sent['seq'] > c['seq']:
+            continue
+        method = 'request_fire_and_forget' if ia['kind'] == 'fnf' else 'on_metadata_push'
+        if ia['kind'] == 'push':
+            exp_md = app.nb(app.content(iid, 'q', 0, 'M', max(app.TAG_LEN, ia.get('req', {}).get('mlen') or app.TAG_LEN)))
+            got = [e for e in an.by_kind['hnd'] + an.by_kind.get('post_hnd', []) if e['method'] == method and e.get('metadata') == exp_md]
+        else:
+            got = [e for e in an.hnds.get(iid, []) + [x for x in an.by_kind.get('post_hnd', []) if x.get('iid') == iid]
+                   if e['method'] == method]
+        facts = dict(kind=ia['kind'], by=an.requester(iid), framing=an.plan.get('framing', 'tcp'), iid=iid)
+        if not got:
+            V('lost_at_close', '%s %d was written completely before %s closed the connection, but never reached the peer handler'
+              % (ia['kind'], iid, c.get('who')), sent['seq'], **facts)
+        elif len(got) > 1:
+            V('request_duplicated', '%s %d delivered %d times' % (ia['kind'], iid, len(got)), got[1]['seq'], **facts)
+    return out
 
 
 # registry ------------------------------------------------------------------------------
